@@ -85,6 +85,11 @@ def _spec(draw, tier):
         spec["ckpt"] = [a, -(-T // a) + 1]
     spec["solver"] = draw(st.sampled_from(["bwd_euler", "bwd_euler", "crank_nicolson"]))
     spec["backend"] = draw(st.sampled_from(gn.BACKENDS))
+    # a non-trainable CaT channel on some compartments that start depolarised: its rate expressions run into the
+    # clipped exponential (argument > 20 for v + vx > -22 mV), whose derivative must be 0 there
+    spec["cat_rows"] = sorted(draw(st.sets(st.integers(0, N - 1), max_size=2))) if draw(st.integers(0, 2)) == 0 else []
+    for r in spec["cat_rows"]:
+        morph["v"][r] = draw(fl(-20.0, 10.0))
     spec["phase"] = [draw(fl(0.1, 3.0)) for _ in range(3)]
     spec["dirs"] = [[draw(fl(-1.0, 1.0)) for _ in range(24)] for _ in range(2)]
     return spec
@@ -118,6 +123,10 @@ def judge(spec, tier="quick"):
 
     def build():
         m = c10.build(spec)
+        if spec.get("cat_rows"):
+            from jaxley.channels import CaT, Leak
+            gn.view_of(m, spec["cat_rows"]).insert(CaT())
+            gn.view_of(m, spec["cat_rows"]).insert(Leak())
         for a in spec["assignments"]:
             v = c10.the_view(m, spec, a)
             init = [float(x) if _scale_kind(a["key"])[0] == "mul" else float(np.clip(x, 0.15, 0.85) if a["key"] != "v" else x) for x in a["init"]]
@@ -209,6 +218,8 @@ def judge(spec, tier="quick"):
         out.classes.append("key:" + a["key"])
     out.classes.append("ckpt:" + ("none" if spec["ckpt"] is None else f"depth{len(spec['ckpt'])}" + ("+over" if int(np.prod(spec["ckpt"])) > T else "")))
     out.classes.append(spec["solver"] + "/" + kw["voltage_solver"])
+    if spec.get("cat_rows"):
+        out.classes.append("CaT on depolarised compartments (clipped exponentials)")
     if any(v in (-40.0, -55.0) for v in spec["morph"]["v"]) and spec["hh_rows"]:
         out.classes.append("initial v on a rate singularity")
     for name, d in dirs:
